@@ -157,7 +157,59 @@ class Interp:
                     if isinstance(n, ast.Name) and isinstance(n.ctx, ast.Store):
                         m.env.vars[n.id] = Opaque(f"{name}.{n.id}: {e}")
         m.loaded = True
+        self.snapshot_static_state(m)
         return m
+
+    # module-level and class-level mutable containers (a class attribute used as a memo, a module dict of results, a default
+    # argument) are part of the program state: every path must start from the state the import left, not from what the
+    # previous path (or unit) of this worker process wrote into them
+    def snapshot_static_state(self, m):
+        import collections
+        snaps = self.__dict__.setdefault("static_snapshots", [])
+        kinds = (dict, list, set, collections.deque, np.ndarray)
+
+        def snap(holder, key, v):
+            if isinstance(v, kinds) and not any(s[2] is v for s in snaps):
+                try:
+                    import copy as _c
+                    snaps.append((holder, key, v, _c.copy(v)))
+                except Exception:
+                    pass
+        for k, v in list(m.env.vars.items()):
+            snap(m.env.vars, k, v)
+            if isinstance(v, ClassVal):
+                for ck, cv in list(v.ns.items()):
+                    snap(v.ns, ck, cv)
+                    if isinstance(cv, FuncVal):
+                        for i, dv in enumerate(getattr(cv, "defaults", []) or []):
+                            snap(cv.defaults, i, dv)
+            if isinstance(v, FuncVal):
+                for i, dv in enumerate(getattr(v, "defaults", []) or []):
+                    snap(v.defaults, i, dv)
+
+    def reset_static_state(self):
+        import collections
+        for holder, key, obj, pristine in self.__dict__.get("static_snapshots", []):
+            try:
+                if isinstance(obj, dict):
+                    if obj != pristine:
+                        obj.clear(); obj.update(pristine)
+                elif isinstance(obj, list):
+                    if obj != pristine:
+                        obj[:] = pristine
+                elif isinstance(obj, set):
+                    if obj != pristine:
+                        obj.clear(); obj.update(pristine)
+                elif isinstance(obj, collections.deque):
+                    if list(obj) != list(pristine):
+                        obj.clear(); obj.extend(pristine)
+                elif isinstance(obj, np.ndarray):
+                    if obj.shape == pristine.shape:
+                        obj[...] = pristine
+                holder[key] = obj          # a rebound name goes back to the original container
+            except Exception:
+                pass
+        self.memo_store = {}
 
     def resolve_import(self, module: ModuleVal, modname, level):
         if level:
